@@ -126,9 +126,20 @@ def pairing(R, fns):
         return s
 
     ts = Typestate(f, 0, tr)
-    for r in f.returns():
-        v = f.d(r.node["a"][0]) if r.node["a"] else None
-        vu = RU.uncast(f, v)
+    points = []
+    for r0 in f.returns():
+        v0 = RU.uncast(f, f.d(r0.node["a"][0])) if r0.node["a"] else None
+        stores = []
+        if v0 is not None and v0["k"] == "var" and "$" in v0["n"]:
+            # the result variable of an expanded helper: each store into it is a return of that helper
+            for e0 in f.all_events():
+                if e0.kind == "access" and e0.mode == "w" and e0.node["k"] == "var" and e0.node["n"] == v0["n"]:
+                    for b0 in f.blocks.values():
+                        for el0 in b0.elems:
+                            if el0["k"] == "bin" and el0["op"] == "=" and f.d(el0["a"][0]) is e0.node:
+                                stores.append((e0, RU.uncast(f, el0["a"][1])))
+        points.extend(stores if len(stores) >= 2 else [(r0, v0)])
+    for r, vu in points:
         counts = ts.before.get(r.pos, set())
         if vu is not None and f.is_const(vu) == 0:
             continue
@@ -674,7 +685,18 @@ def destroy(R, fns):
     loops = [b for b in f.blocks.values() if b.term == "for" and b.cond is not None]
     conds = [f.show(b.cond) for b in loops]
     R.check(any("AWS_SBA_BIN_COUNT" in c or "< 5" in c for c in conds), "DESTROY", "all-bins", "%s()" % f.name, "loops over all bins (%s)" % conds)
-    R.check(any("active_pages.length" in c for c in conds), "DESTROY", "all-active-pages", "%s()" % f.name, "loops over all active pages")
+    ok_pages = any("active_pages.length" in c for c in conds)
+    if not ok_pages:
+        # the bound through a local that caches the length, or a counting loop written another way (RU.loop_cover)
+        from sa.cfg import natural_loops
+        for h_, body_ in natural_loops(f).items():
+            lc = RU.loop_cover(f, h_, body_)
+            if lc and lc[1] is not None:
+                o_ = RU.origin(f, lc[1])
+                txt_ = f.show(RU.uncast(f, o_) if o_ is not None else lc[1], alias=True)
+                if "active_pages" in txt_ and ("length" in txt_):
+                    ok_pages = True
+    R.check(ok_pages, "DESTROY", "all-active-pages", "%s()" % f.name, "loops over all active pages")
     gcur = False
     for e in frees:
         gs = [f.show(f.d(c)) for c, p, b in RU.guards(f, e) if p]
